@@ -97,6 +97,13 @@ CHECKS = {
              "on base and transformed data; whole pole tables are compared column by column as multisets of (f, xi, shape), plus extracted modes, grid and "
              "unit normalisation; a third run on data perturbed at 1e-15 marks ill-conditioned columns as not judged.",
         ref="3/C08"),
+    "C14": dict(
+        technique="runtime monitoring: history of public preprocessing calls replayed against an executable scipy model; invariants checked after every step",
+        text="Exploration with exhaustive parts: all sequences up to length 3 (quick) / 4 (thorough) over 7 concrete operations on a SingleSetup and a PreGER object "
+             "plus sampled length-5 sequences with random keywords/layouts; after every step data, fs, dt, sample counts, durations, the data bound to a probe "
+             "algorithm and checksums of the user's arrays and the stored initial copy are compared with the model. The duration after decimation (pinned by "
+             "three stable tests) is reported as KNOWN-FINDING, matched by mechanism (T*q == Ndat*dt).",
+        ref="3/C14"),
 }
 
 PENDING_REASON = "check not built yet in this session (work in progress; the design in DESIGN.md section 3 applies)"
